@@ -1,5 +1,6 @@
 from __future__ import annotations
 
+import math
 import struct
 
 from claripy import operations
@@ -78,7 +79,10 @@ class FP(Bits):
     def _from_float(like, value) -> FP:
         return FPV(float(value), like.sort)
 
-    _from_int = _from_float
+    @staticmethod
+    def _from_int(like, value) -> FP:
+        return FPV(value, like.sort)  # (FPV converts: an integer beyond the largest double is an infinity)
+
     _from_str = _from_float
 
 
@@ -105,7 +109,11 @@ def FPV(value, sort) -> FP:
     :return:        An FP AST.
     """
     if isinstance(value, int):
-        value = float(value)
+        try:
+            value = float(value)
+        except OverflowError:
+            # beyond the largest double: rounds to an infinity, like every conversion of such a number to a float
+            value = math.inf if value > 0 else -math.inf
     elif not isinstance(value, float):
         raise TypeError("Must instanciate FPV with a numerical value")
 
